@@ -1718,3 +1718,46 @@ def w17(facts, tier):
              ("the before-epoch flag is set on the Ok branch of UNIX_EPOCH.duration_since(self), which also covers self == UNIX_EPOCH "
               "(distance 0): the epoch is written with the flag bit set, so equal instants no longer have equal bytes and the bytes "
               "differ from the documented encoding" if bad else "flag polarity not determined"))
+
+
+# ---------------------------------------------------------------------------------------------
+# X4 (C11): who may claim a known memory layout for a container
+
+PROBES = {"savefile::calculate_vec_memory_layout": ("alloc::vec::Vec<",),
+          "savefile::calculate_slice_memory_layout": ("&[", "&'_ [", "[", "&'a ["),
+          "savefile::calculate_string_memory_layout": ("alloc::string::String", "&str", "&'_ str", "&'a str", "str")}
+
+
+@rule("X4", ["C11", "C10"], floor=3, doc="a schema claims a known Vec/String memory layout only through the run-time probe written for that very type: "
+      "calculate_vec_memory_layout for Vec<T>, calculate_slice_memory_layout for &[T], calculate_string_memory_layout for String/&str; "
+      "every other container (Box<[T]>, Arc<[T]>, VecDeque, sets, ...) reports Unknown, which layout_compatible answers 'no' to")
+def x4(facts, tier):
+    for f in sorted(facts.fns.values(), key=lambda g: g["id"]):
+        im = f.get("impl") or {}
+        if f["crate"] != "savefile" or im.get("trait") != "savefile::WithSchema" or f.get("name") != "schema" or not f.get("body"):
+            continue
+        st = im.get("self_ty", "")
+        reached, todo, seen_ = set(), [f], set()
+        while todo:
+            g = todo.pop()
+            if g["id"] in seen_:
+                continue
+            seen_.add(g["id"])
+            for x in walk(g["body"]):
+                if x.get("k") == "Call":
+                    t = (x.get("res") or {}).get("fn") or x.get("fn") or ""
+                    base = t.split("<")[0] if not t.startswith("<") else t
+                    if base in PROBES:
+                        reached.add(base)
+                    h = facts.fns.get(t)
+                    if h is not None and h["crate"] == "savefile" and not (h.get("impl") or {}).get("trait") and h.get("body"):
+                        todo.append(h)
+                elif x.get("k") == "Closure" and x.get("id") in facts.fns:
+                    todo.append(facts.fns[x["id"]])
+        if not reached:
+            continue
+        bad = [p for p in reached if not st.startswith(PROBES[p])]
+        yield ob(["C11", "C10"], "X4", st, "violation" if bad else "pass", where(f),
+                 f"{st}: claims the layout probed by {sorted(reached)[0].rsplit('::', 1)[-1]} (its own probe)" if not bad else
+                 f"the schema of `{st}` claims the memory layout probed by `{bad[0].rsplit('::', 1)[-1]}`, which examines a different type: "
+                 f"layout_compatible then treats `{st}` as interchangeable in memory with that type and a reference to it is passed as a raw pointer")
